@@ -206,7 +206,7 @@ func run(e *hx.Env) *hx.Report {
 	for i := 0; want("sk") && i < e.N(80, 600); i++ {
 		c.runOps(fmt.Sprintf("sk%d", i), genSK(c, i))
 	}
-	for i := 0; want("srv") && i < e.N(96, 480); i++ {
+	for i := 0; want("srv") && i < e.N(144, 576); i++ {
 		ops := genSRV(c, i)
 		c.runOps(fmt.Sprintf("srv%d", i), ops)
 		if i < 2 {
